@@ -220,6 +220,53 @@ func checkLeaseSticky(r *Run, k *kvCtx) {
 	}
 	r.ObPath("C06.R6.lease", "allocate accepts an operation only after reading the key's stored lease", p.Position(alloc.Pos()), path == nil,
 		"an operation naming its own node as leaseholder is accepted without the ErrLeaseNotTransferable test: two nodes then stamp versions of one key from different counters", path)
+	// when a lease is stored, allocate accepts only an operation that names that leaseholder
+	// (or none, in which case it is given the stored one)
+	if gl := CallsIn(alloc, calleeIs(fn)); len(gl) == 1 {
+		var lh, er types.Object
+		inspectNoLit(alloc.Body, func(n ast.Node) bool {
+			if as, ok := n.(*ast.AssignStmt); ok && len(as.Rhs) == 1 && ast.Unparen(as.Rhs[0]) == ast.Expr(gl[0]) && len(as.Lhs) == 2 {
+				lh, er = objOf(alloc, as.Lhs[0]), objOf(alloc, as.Lhs[1])
+			}
+			return true
+		})
+		opParam := paramObj(alloc, 1)
+		isOpLH := func(e ast.Expr) bool {
+			f, ok := isFieldOfObj(alloc, e, opParam)
+			return ok && f == "Leaseholder"
+		}
+		same := ac.EdgesEstablishing(func(atom ast.Expr, val bool) bool {
+			be, ok := ast.Unparen(atom).(*ast.BinaryExpr)
+			if !ok || (be.Op != token.EQL && be.Op != token.NEQ) {
+				return false
+			}
+			if !((objOf(alloc, be.X) == lh && isOpLH(be.Y)) || (objOf(alloc, be.Y) == lh && isOpLH(be.X))) {
+				return false
+			}
+			return (be.Op == token.EQL) == val
+		})
+		adopts := func(n ast.Node) bool {
+			as, ok := n.(*ast.AssignStmt)
+			return ok && len(as.Lhs) == 1 && len(as.Rhs) == 1 && isOpLH(as.Lhs[0]) && lh != nil && objOf(alloc, as.Rhs[0]) == lh
+		}
+		var starts []Point
+		if er != nil {
+			for e := range errNilEdges(ac, er) {
+				starts = append(starts, Point{e.B.Succs[e.Succ], -1})
+			}
+		}
+		var p2 []string
+		if len(starts) > 0 && lh != nil {
+			q2, v2 := ac.ReachAvoiding(starts, same, adopts)
+			for _, ex := range ac.Exits() {
+				if ex.Return != nil && v2[ex.P] && mayReturnNilError(alloc, ex.Return) {
+					p2 = q2.PathTo(ex.P)
+				}
+			}
+		}
+		r.ObPath("C06.R6.lease", "with a lease stored, allocate accepts only an operation naming that leaseholder", p.Position(alloc.Pos()), len(starts) > 0 && len(same) > 0 && p2 == nil,
+			"an operation naming another node is accepted for a key that already has a leaseholder: two nodes then stamp versions of one key from different counters and the replicas never agree", p2)
+	}
 }
 
 func checkApplyGuard(r *Run, k *kvCtx, rule string) {
